@@ -160,3 +160,83 @@ def run(ctx):
         ctx.ob('C18.4', sv, 'lock-held-while-serving:' + s_.name, bool(held),
                'the server task is %s %s' % ({'abort': 'aborted', 'poll': 'awaited', 'timeout': 'given its drain timeout'}.get(s_.name, s_.name),
                                             'while the authority lock is still held' if held else 'AFTER the authority lock was released: a second authority can take the store while this one still serves in-flight streams'), line=s_.line)
+
+    # ---------------------------------------------------------------- C18.5
+    ctx.rule('C18.5', 'the corrupt-lock grace clock restarts whenever the lock was seen valid: in both wait loops (the server\'s acquire_authority_lock_with_recovery and the client\'s ensure_local_authority_with_paths) every path from the Ok(Some(record)) arm of read_authority_lock_record back to the loop head passes an assignment of None to the "invalid since" cell (the Option<Instant> that get_or_insert(Instant::now()) arms). A clock left running from an earlier half-written lock lets the next half-written lock — of a live contender that is just starting — be removed at once, without the grace period.')
+    n5 = 0
+    for path5 in ('ripd::server::acquire_authority_lock_with_recovery', 'rip::local_authority::ensure_local_authority_with_paths'):
+        g = P.body(path5, required=False)
+        if g is None:
+            continue
+        gi = g.calls(r'core::option::Option::<T>::get_or_insert(_with)?$', full=r'Instant')
+        rd = g.calls(r'local_authority::read_authority_lock_record$')
+        if not gi or not rd:
+            continue
+        cell = g.root_local(gi[0].args[0], through_calls=(r'::deref_mut$',))
+        if cell is None:
+            continue
+        n5 += 1
+        ctx.touch(g)
+        resets = [bi for (bi, si, kind, payload, ln) in g.defs(cell) if kind == 'rv' and (payload['k'] == 'agg' and payload.get('variant') == 'None' or payload['k'] == 'use' and (op_const(payload['a'][0]) is not None or (lambda o_: o_[0] == 'rv' and o_[1].get('variant') == 'None')(g.origin(payload['a'][0]))))]
+        # the Ok(Some(..)) arm: switch on the discriminant of the call result (Ok = 0), then of its payload (Some = 1)
+        valid_targets = []
+        for r_ in rd:
+            for (bi, on, ts, els) in switches(g):
+                o = g.origin(on)
+                if not (o[0] == 'rv' and o[1]['k'] == 'discr'):
+                    continue
+                pl = o[1]['pl']
+                if pl['l'] != r_.dest['l']:
+                    continue
+                projs = [x for x in pl.get('p', []) if isinstance(x, dict)]
+                if any('dc' in x and x.get('v') == 0 for x in projs) and '1' in ts:
+                    valid_targets.append(ts['1'])          # (result as Ok).0 is Some
+        ok5 = bool(valid_targets) and bool(resets)
+        for vt in valid_targets:
+            h5 = g.innermost_loop(vt)
+            if h5 is None:
+                ok5 = False
+                continue
+            body5 = g.loops()[h5]
+            r5 = g.reach([vt], stop=resets)
+            if any(h5 in g.succs(b) for b in r5 if b in body5 and b not in resets):
+                ok5 = False
+        ctx.ob('C18.5', g, 'grace-clock-reset-on-valid-lock', ok5,
+               'invalid-since cell `%s`: %s' % (g.lname(cell), 'every iteration that saw a valid lock record resets it before looping' if ok5 else
+               'an iteration that saw a VALID lock record can loop without resetting it: the next unreadable lock (a live contender still writing it) is cleaned up without the grace period'),
+               line=gi[0].line)
+    ctx.floor('C18.5', 'wait loops with a corrupt-lock grace clock', n5, 2)
+
+    # ---------------------------------------------------------------- C18.6
+    ctx.rule('C18.6', 'the corrupt-lock marker is one both sides know: every string the wait loops look for in the error of read_authority_lock_record (`err.contains("…")`) occurs literally in a message template of the reader (the functions reachable from read_authority_lock_record inside ripd::local_authority). A reworded message that no longer contains the marker switches the corrupt-lock recovery off: a lock.json torn by a crash keeps the store unusable for good.')
+    needles = []
+    for path6 in ('ripd::server::acquire_authority_lock_with_recovery', 'rip::local_authority::ensure_local_authority_with_paths'):
+        g = P.body(path6, required=False)
+        if g is None:
+            continue
+        for c in g.calls(r'core::str::<impl str>::(contains|starts_with|ends_with)$'):
+            k = op_const(c.args[1]) if len(c.args) > 1 else None
+            if k is not None and 'str' in k:
+                needles.append((g, c, k['str']))
+    rd6 = 'ripd::local_authority::read_authority_lock_record'
+    par6 = [p_ for p_ in P.reach_fns([rd6]) if p_ in P.fns and p_.startswith('ripd::local_authority::')]
+    templates = []
+    for p_ in par6:
+        h = P.fns[p_]
+        for b in h.blocks:
+            for st in b['s']:
+                for o_ in (st.get('rv') or {}).get('a', []):
+                    k = op_const(o_)
+                    if k is not None and ('bstr' in k or 'str' in k):
+                        templates.append(k.get('bstr') or k.get('str'))
+            if b['t']['k'] == 'call':
+                for o_ in b['t']['a']:
+                    k = op_const(o_)
+                    if k is not None and ('bstr' in k or 'str' in k):
+                        templates.append(k.get('bstr') or k.get('str'))
+    ctx.floor('C18.6', 'error markers the wait loops look for', len(needles), 2)
+    ctx.floor('C18.6', 'message templates of the lock reader', len(templates), 1)
+    for g, c, nd in needles:
+        ok6 = any(nd in t for t in templates)
+        ctx.ob('C18.6', g, 'marker-produced:' + nd.replace(' ', '_'), ok6, 'the marker "%s" %s' % (nd, 'occurs in a message template of read_authority_lock_record' if ok6 else
+               'occurs in NO message of the lock reader (%d function(s), %d template(s) scanned): the recovery it guards can never run' % (len(par6), len(templates))), line=c.line)
